@@ -454,6 +454,22 @@ func genFsCase(r *Rng, family string) *FsCase {
 		c.Hdrs = append(c.Hdrs[:at], append([]*tar.Header{h}, c.Hdrs[at:]...)...)
 		c.Bodies = append(c.Bodies[:at], append([]string{""}, c.Bodies[at:]...)...)
 	}
+	// chrooted entry points: host-side twins of what the archive names (see plantTwins), and now and then an
+	// archive with many directories — work handed to other threads in batches only shows with enough of them
+	if root != "" && (op == "untar-chroot" || op == "layer-chroot") {
+		c.Args = append(c.Args, "twins")
+		if root == dest && r.chance(1, 25) {
+			n := 70 + r.intn(90)
+			var hs []*tar.Header
+			var bs []string
+			for i := 0; i < n; i++ {
+				hs = append(hs, &tar.Header{Name: fmt.Sprintf("tw/d%03d/", i), Typeflag: tar.TypeDir, Mode: 0o755, ModTime: time.Unix(1600000000+int64(i), 0)})
+				bs = append(bs, "")
+			}
+			c.Hdrs = append(hs, c.Hdrs...)
+			c.Bodies = append(bs, c.Bodies...)
+		}
+	}
 	return c
 }
 
